@@ -218,7 +218,11 @@ Inductive rop :=
 | OCopy                            (* cur = cur._copy() *)
 | OT                               (* cur = cur._t *)
 | OConcat (l : list idx)           (* cur = Table.concatenate([cur.rows[i] for i in l]) *)
-| OSet (key : N) (v : aval).       (* cur[key] = v *)
+| OSet (key : N) (v : aval)        (* cur[key] = v : existing column, new column, new scalar, or an existing
+                                      scalar entry promoted to a column by an array of len(cur) *)
+| ODel (key : N)                   (* del cur[key] : a column or a scalar entry *)
+| OStay (o : rop).                 (* the derivation o is made from cur and checked, cur stays the current
+                                      table: selections and assignments interleave on ONE source table *)
 
 Fixpoint rows_all (t : rtable) (l : list idx) : sres (list rtable) :=
   match l with
@@ -226,7 +230,14 @@ Fixpoint rows_all (t : rtable) (l : list idx) : sres (list rtable) :=
   | ix :: r => sbind (rsel_rows t ix) (fun a => sbind (rows_all t r) (fun b => Ok (a :: b)))
   end.
 
-Definition rstep (t : rtable) (o : rop) : sres rtable :=
+(* __delitem__ *)
+Definition delete (t : rtable) (key : N) : sres rtable :=
+  match aget N.eqb key (r_data t) with
+  | None => Err EKey
+  | Some _ => Ok (mkRT (adel N.eqb key (r_data t)) (remove N.eq_dec key (r_cols t)) (r_index t))
+  end.
+
+Fixpoint rstep (t : rtable) (o : rop) : sres rtable :=
   match o with
   | ORows ix => rsel_rows t ix
   | OCols l => rsel_cols t l
@@ -237,10 +248,17 @@ Definition rstep (t : rtable) (o : rop) : sres rtable :=
   | OT => transpose t
   | OConcat l => sbind (rows_all t l) concatenate
   | OSet key v => assign t key v
+  | ODel key => delete t key
+  | OStay o' => rstep t o'
   end.
 
-(* a failing operation raises and leaves the current table as it was *)
-Definition rnext (t : rtable) (o : rop) : rtable := match rstep t o with Ok t' => t' | Err _ => t end.
+(* a failing operation raises and leaves the current table as it was; a
+   derivation under OStay is observed but the current table stays *)
+Definition rnext (t : rtable) (o : rop) : rtable :=
+  match o with
+  | OStay _ => t
+  | _ => match rstep t o with Ok t' => t' | Err _ => t end
+  end.
 
 Definition rfinal (t : rtable) (ops : list rop) : rtable := fold_left rnext ops t.
 
@@ -253,10 +271,7 @@ Definition shape_of (t : rtable) : shape :=
 Fixpoint rrun (t : rtable) (ops : list rop) : list (sres shape) :=
   match ops with
   | [] => []
-  | o :: rest => match rstep t o with
-                 | Ok t' => Ok (shape_of t') :: rrun t' rest
-                 | Err e => Err e :: rrun t rest
-                 end
+  | o :: rest => (match rstep t o with Ok t' => Ok (shape_of t') | Err e => Err e end) :: rrun (rnext t o) rest
   end.
 
 (* ---- the invariant ------------------------------------------------------------------ *)
@@ -281,8 +296,14 @@ Definition reqs_okb (t : rtable) (l : list colreq) : bool :=
                     | CExpr c => negb (memN c (map fst (r_data t)))
                     end) l.
 
-Definition rop_okb (t : rtable) (o : rop) : bool :=
-  match o with OCols l => reqs_okb t l | _ => true end.
+(* ... and the index column is not deleted *)
+Fixpoint rop_okb (t : rtable) (o : rop) : bool :=
+  match o with
+  | OCols l => reqs_okb t l
+  | ODel key => negb (N.eqb key (r_index t))
+  | OStay o' => rop_okb t o'
+  | _ => true
+  end.
 
 Fixpoint rops_okb (t : rtable) (ops : list rop) : bool :=
   match ops with
